@@ -1,6 +1,7 @@
 package checks
 
 import (
+	"os"
 	"fmt"
 	"sort"
 	"strings"
@@ -38,3 +39,5 @@ func joinLines(l []string, max int) string {
 	}
 	return strings.Join(l, "\n")
 }
+
+func os_remove(p string) { os.Remove(p) }
